@@ -432,6 +432,10 @@ func (r *RowCache) IndexExists(row model.Model) error {
 		return nil
 	}
 	uuid := field.(string)
+	// every schema index is looked at: a caller may disregard some of the
+	// rows in the way (rows its transaction deletes), which must not hide a
+	// conflict on another index
+	var conflict *ErrIndexExists
 	for _, indexSpec := range r.indexSpecs {
 		if !indexSpec.isSchemaIndex() {
 			// Given the ordered indexSpecs, we can break here if we reach the
@@ -446,14 +450,21 @@ func (r *RowCache) IndexExists(row model.Model) error {
 		vals := r.indexes[index]
 		existing := vals[val]
 		if !existing.empty() && !existing.equals(newUUIDSet(uuid)) {
-			return NewIndexExistsError(
-				r.name,
-				val,
-				string(index),
-				uuid,
-				existing.list(),
-			)
+			if conflict == nil {
+				conflict = NewIndexExistsError(
+					r.name,
+					val,
+					string(index),
+					uuid,
+					existing.list(),
+				)
+			} else {
+				conflict.Existing = append(conflict.Existing, existing.list()...)
+			}
 		}
+	}
+	if conflict != nil {
+		return conflict
 	}
 	return nil
 }
